@@ -15,6 +15,17 @@ pub struct Case {
 pub struct C01;
 
 pub fn set_locale(l: &Locale) -> Result<(), String> {
+    // "user:<language>:<DecimalSeparator>:<order>": the separators are chosen the way a user does it, through Language
+    // and the user-level preference DecimalSeparator (block / decimal of the Locale are what that choice must give)
+    if let Some(rest) = l.name.strip_prefix("user:") {
+        let parts: Vec<&str> = rest.split(':').collect();
+        let (lang, sep, order) = (parts.first().copied().unwrap_or("en"), parts.get(1).copied().unwrap_or("Auto"), parts.get(2).copied().unwrap_or("0"));
+        let calls = if order == "0" { [("Language", lang), ("DecimalSeparator", sep)] } else { [("DecimalSeparator", sep), ("Language", lang)] };
+        for (k, v) in calls {
+            api::set_pref(k, v).map_err(|e| e.text())?;
+        }
+        return Ok(());
+    }
     api::set_pref("BlockSeparators", &l.block).map_err(|e| e.text())?;
     api::set_pref("DecimalSeparators", &l.decimal).map_err(|e| e.text())?;
     Ok(())
